@@ -1,6 +1,6 @@
 (* C20 - the netstring oracles accept every trace the model can produce (so they fire only where the
    implementation leaves what the theorems establish). *)
-From Icv Require Import Base.Tac Codec.NsModel Codec.NsDecimal Codec.NsProofs Codec.NsStreamProofs Codec.JsModel Codec.CodecOracle.
+From Icv Require Import Base.Tac Codec.NsModel Codec.NsDecimal Codec.NsProofs Codec.NsEofProofs Codec.NsStreamProofs Codec.JsModel Codec.CodecOracle.
 Local Open Scope Z_scope.
 
 Lemma cd_bytes_eqb_refl a : cd_bytes_eqb a a = true.
@@ -83,6 +83,54 @@ Proof.
   rewrite A, cd_frames_eqb_refl, B. cbn [andb].
   destruct (rev (ns_model_feeds max ns_ctx_init chunks)) as [|[ch o] t]; [reflexivity|].
   rewrite D, Hbuf. reflexivity.
+Qed.
+
+(* the end-of-stream oracle accepts what the model's caller loop computes, for EVERY chunking of the input *)
+Theorem ns_oracle_eof_accepts_model max fills :
+  let '(items, e, size) := ns_read_all max fills in
+  ns_oracle_eof max (concat fills) items (ns_end_code e) size 1 = true.
+Proof.
+  pose proof (ns_eof_chunking_independent max fills [concat fills]) as H.
+  cbn [concat] in H. rewrite app_nil_r in H. destruct (H eq_refl) as [H1 H2]. clear H.
+  unfold ns_oracle_eof.
+  destruct (ns_read_all max fills) as [[i e] sz]. destruct (ns_read_all max [concat fills]) as [[i' e'] sz'].
+  cbn [fst snd] in *. inv H1. rewrite cd_frames_eqb_refl, Z.eqb_refl. cbn [andb].
+  destruct e'; cbn [ns_end_code Z.eqb]; try reflexivity.
+  specialize (H2 eq_refl). inv H2. rewrite Z.eqb_refl. reflexivity.
+Qed.
+
+(* what ns_oracle_wbig expects is what the model does on EVERY payload of that length *)
+Theorem ns_wbig_sound max p :
+  let n := ns_len p in
+  ns_write p = (ns_dec n ++ [ns_colon]) ++ p ++ [ns_comma] /\
+  ns_len (ns_write p) = ns_len (ns_dec n) + n + 2 /\
+  (ns_wbig_back false max n = true -> ns_read_all max [ns_write p] = ([p], NsEndEof, 0)) /\
+  (ns_wbig_back true max n = true -> ns_read_stream max (ns_write p) = NsSOk p []) /\
+  (n < 10 ^ 9 -> ns_wbig_back false max n = false -> fst (ns_read_all max [ns_write p]) = ([], NsEndErr ns_e_max)) /\
+  (n < 10 ^ 9 -> ns_wbig_back true max n = false -> exists tl, ns_read_stream max (ns_write p) = NsSErr ns_e_max tl).
+Proof.
+  cbv zeta. pose proof (ns_len_nonneg p) as Hn.
+  split; [unfold ns_write; rewrite <- app_assoc; reflexivity|].
+  split; [unfold ns_write; rewrite ns_len_app, ns_len_cons, ns_len_app; change (ns_len [ns_comma]) with 1; lia|].
+  unfold ns_wbig_back.
+  split; [|split; [|split]].
+  - intros H. apply andb_prop in H as [H9 Hm]. apply Z.ltb_lt in H9.
+    assert (max < 0 \/ ns_len p + 1 <= max) as Hmax by (apply orb_prop in Hm as [Hm|Hm]; [left; apply Z.ltb_lt; assumption|right; apply Z.leb_le; assumption]).
+    destruct (ns_eof_prefix max [p] [] [ns_write p]) as [A _].
+    + constructor; [split; assumption|constructor].
+    + cbn. rewrite !app_nil_r. reflexivity.
+    + apply A. reflexivity.
+  - intros H. apply andb_prop in H as [H9 Hm]. apply Z.ltb_lt in H9.
+    rewrite <- (app_nil_r (ns_write p)). apply ns_roundtrip_stream; [assumption|].
+    apply orb_prop in Hm as [Hm|Hm]; [left; apply Z.ltb_lt; assumption|right; apply Z.leb_le; assumption].
+  - intros H9 H. apply andb_false_iff in H as [H|H]; [apply Z.ltb_ge in H; lia|].
+    apply orb_false_iff in H as [H1 H2]. apply Z.ltb_ge in H1. apply Z.leb_gt in H2.
+    destruct (ns_eof_prefix max [] (ns_write p) [ns_write p]) as [_ B]; [constructor|cbn; rewrite app_nil_r; reflexivity|].
+    apply B. unfold ns_write. apply ns_buffered_limit; lia.
+  - intros H9 H. apply andb_false_iff in H as [H|H]; [apply Z.ltb_ge in H; lia|].
+    apply orb_false_iff in H as [H1 H2]. apply Z.ltb_ge in H1. apply Z.leb_gt in H2.
+    unfold ns_write. destruct (ns_stream_limit_rejects max (ns_len p) (p ++ [ns_comma]) ltac:(lia) H9) as (Hrej & _).
+    eexists. exact Hrej.
 Qed.
 
 (* the stream oracle accepts what the model computes *)
